@@ -93,6 +93,7 @@ Definition dispatch (line : bytes) : bytes :=
     else if is_conn_kind kind then run_conn kind args
     else if is_frame_kind kind then run_frame kind args
     else if is_typed_kind kind then run_typed kind args
+    else if is_typed_spec_kind kind then run_spec kind args
     else b "unknown-kind " ++ kind
   | [] => b "empty"
   end.
